@@ -340,7 +340,9 @@ WithdrawRepaysDebt(pre, e) ==
   (e.ev = "Withdraw" /\ e.ok) =>
      LET M1 == MinerByName(pre, e.m) M2 == MinerByName(e.st, e.m) IN
      /\ BLeq(M1.debt, SentFrom(e.tr, e.m, "f099"))
-     /\ BLeq(SentFrom(e.tr, e.m, M2.ben), BMulSmall(BMulSmall(BMulSmall(BOfInt(e.nano), 10000), 10000), 10))   \* nanoFIL -> attoFIL
+     /\ BLeq(SentFrom(e.tr, e.m, M2.ben),
+             IF "req" \in DOMAIN e THEN e.req     \* the requested amount in attoFIL as logged by the driver
+             ELSE BMulSmall(BMulSmall(BMulSmall(BOfInt(e.nano), 10000), 10000), 10))   \* nanoFIL -> attoFIL
 \* C15: "every charged amount is either burnt at once or recorded as fee debt": fee debt never just disappears --
 \* whenever a miner's debt goes down, at least that much went to the burnt-funds actor in the same step
 DebtOnlyRepaidByBurn(pre, e) ==
